@@ -206,7 +206,7 @@ class SymCtx:
             # the path's own witness may already refute the claim (no search needed)
             try:
                 v = ex.model.eval(cond, model_completion=True)
-                if z3.is_false(v) and all(z3.is_true(ex.model.eval(c, model_completion=True)) for c in ex.cons[-5:]):
+                if z3.is_false(v) and all(z3.is_true(ex.model.eval(c, model_completion=True)) for c in ex.cons):
                     r, m = "sat", ex.model
                     rec["by_witness"] = True
             except z3.Z3Exception:
